@@ -396,6 +396,7 @@ def run(model: Model, rep: Report, tier: str) -> None:
         ("R14.4", f"{NXMG}.__eq__", "same_graph", {"self": GT, "other": GT}, (), "set-views",
          "same node set, directed edge set and bidirected edge set, compared through set-like views", {"impl_self_type": GT}),
     ], "yvref.c14", _mk14, SetAlg(rewriter(graph_rewrite)), construct=construct, loc=loc, post=nxden.post_effects_only)
+    intervened_ancestor_rows(model, rep, "R14.2")
     if present:
         run_table(model, rep, present, "yvref.c14", _mk14, SetAlg(), construct=construct, loc=loc)
     else:
@@ -474,3 +475,25 @@ def run(model: Model, rep: Report, tier: str) -> None:
         "nodes of a graph passed to intervene() are plain variables (the TypeError guard rows are excluded)",
         "intervene and get_nodes_in_directed_paths: only filter structure / purity are decided (value-level constructs)",
     ]
+
+
+def intervened_ancestor_rows(model: Model, rep: Report, rule: str) -> None:
+    """get_intervened_ancestors / get_no_effect_on_outcomes against their definitions (ID line 3, TRSO line 3 and the transport of surrogate
+    outcomes read W off these); also run by the rules of the properties that rest on them."""
+    from ..refcmp import load_reference, run_table
+    if "yvref.c14" not in model.modules:
+        load_reference(model, "yvref.c14", "c14_ref.py")
+    GT = ("cls", NXMG)
+    VS = ("set", ("cls", "y0.dsl.Variable"))
+    prims = (f"{NXMG}.remove_in_edges", f"{NXMG}.ancestors_inclusive", f"{NXMG}.nodes", "y0.graph._ensure_set")
+    rows = [
+        (rule, f"{NXMG}.get_intervened_ancestors", "ancestors_after_intervening", {"self": GT, "interventions": VS, "outcomes": VS}, prims, "An(Y)-after-do(X)",
+         "the ancestors of the outcomes in the graph with the arrows into EVERY intervened node removed", {"impl_self_type": GT}),
+        (rule, f"{NXMG}.get_no_effect_on_outcomes", "without_effect_on", {"self": GT, "interventions": VS, "outcomes": VS}, prims, "V-X-An(Y)",
+         "the nodes that are neither intervened on nor ancestors of the outcomes once the arrows into the intervened nodes are removed", {"impl_self_type": GT}),
+    ]
+    rows = [r for r in rows if model.has_func(r[1])]
+
+    def _mk(model_, prims_=()):
+        return lambda: Evaluator(model_, primitives=set(prims_))
+    run_table(model, rep, rows, "yvref.c14", _mk, SetAlg(rewriter(graph_rewrite)), construct=construct, loc=loc)
